@@ -74,6 +74,7 @@ type c04World struct {
 	arrivals []c04Arrival
 	attempts map[int]int
 	dirty    []string // observations of a reused connection with unread bytes (diagnostic)
+	closedAt map[int]int // connection id → number of request arrivals seen when the client closed it
 }
 
 // serve: the scripted server of one connection; the request's own query string says what to do.
@@ -184,6 +185,14 @@ func (w *c04World) dial(string) (net.Conn, error) {
 	c := newMemConn(len(w.conns))
 	w.conns = append(w.conns, c)
 	w.mu.Unlock()
+	c.onCliClose = func(c *memConn) {
+		w.mu.Lock()
+		if w.closedAt == nil {
+			w.closedAt = map[int]int{}
+		}
+		w.closedAt[c.id] = len(w.arrivals)
+		w.mu.Unlock()
+	}
 	c.onCliWrite = func(c *memConn, unread int) {
 		if unread > 0 {
 			w.mu.Lock()
@@ -217,6 +226,8 @@ type c04Call struct {
 	blen, mode, cut    int
 	reqClose           bool
 	entry              int // 0 Do, 1 DoTimeout, 2 DoDeadline
+	end                int // how the caller ends the call: 0 CloseBodyStream 1 ReleaseResponse 2 Reset 3 reuse of the Response
+	carried            bool
 	readK              int
 	tag                int
 	res                string
@@ -236,6 +247,7 @@ func c04Decode(b []byte, stream bool, maxBody int) *c04Call {
 	if c.blen > 0 {
 		c.cut = (int(b[4])*256 + int(b[5])) % (c.blen + 1)
 	}
+	c.end = int(b[7]/5) % 4
 	switch b[7] % 5 {
 	case 0:
 		c.readK = 0
@@ -271,9 +283,16 @@ type c04Doer interface {
 var c04Entries = []string{"Do", "DoTimeout", "DoDeadline"}
 
 // c04Do performs one call and consumes the response the way the script says.
-func c04Do(cl c04Doer, host string, c *c04Call, stream bool) {
+// A streamed response is ended in one of the ways a caller can end it (c.end): CloseBodyStream, ReleaseResponse,
+// resp.Reset(), or — if `carry` is given — not at all: the same *Response is used for the next call, whose Do resets it.
+func c04Do(cl c04Doer, host string, c *c04Call, stream bool, carry **fasthttp.Response) {
 	req := fasthttp.AcquireRequest()
-	resp := fasthttp.AcquireResponse()
+	var resp *fasthttp.Response
+	if carry != nil && *carry != nil {
+		resp, *carry = *carry, nil
+	} else {
+		resp = fasthttp.AcquireResponse()
+	}
 	defer fasthttp.ReleaseRequest(req)
 	req.SetRequestURI(fmt.Sprintf("http://%s/r?t=%d&b=%d&m=%d&k=%d", host, c.tag, c.blen, c.mode, c.cut))
 	req.Header.SetMethod(c04Methods[c.method])
@@ -307,12 +326,30 @@ func c04Do(cl c04Doer, host string, c *c04Call, stream bool) {
 			n, e := io.ReadFull(bs, buf)
 			c.gotBody, c.streamErr = buf[:n], e
 		}
-		resp.CloseBodyStream()
 	} else {
 		c.gotBody = append([]byte(nil), resp.Body()...)
 	}
-	fasthttp.ReleaseResponse(resp)
+	switch c.end {
+	case 0:
+		resp.CloseBodyStream()
+		fasthttp.ReleaseResponse(resp)
+	case 1:
+		fasthttp.ReleaseResponse(resp)
+	case 2:
+		resp.Reset()
+		fasthttp.ReleaseResponse(resp)
+	default:
+		if carry != nil {
+			*carry = resp // dropped by the next call's Do (or by the final ReleaseResponse)
+			c.carried = true
+		} else {
+			resp.Reset()
+			fasthttp.ReleaseResponse(resp)
+		}
+	}
 }
+
+var c04Ends = []string{"CloseBodyStream", "ReleaseResponse", "Reset", "reuse of the Response"}
 
 // c04Check is the property monitor for one finished call.
 func c04Check(c *c04Call) (string, string) {
@@ -358,6 +395,28 @@ func c04Host(a [][]byte) *Case {
 		if lifo {
 			hc.ConnPoolStrategy = fasthttp.LIFO
 		}
+		// a Response carried over to the next call keeps its stream (and with it the connection) until that call's Do
+		// resets it: whether the connection was then released or closed is seen from when it was closed
+		type pendingFate struct{ idx, conn, n1 int }
+		var carry *fasthttp.Response
+		var pend *pendingFate
+		prevEnd := 0
+		resolvePending := func() {
+			if pend == nil {
+				return
+			}
+			fate := "R"
+			w.mu.Lock()
+			if at, ok := w.closedAt[pend.conn]; ok && at == pend.n1 {
+				fate = "C"
+			}
+			w.mu.Unlock()
+			if pend.conn < 0 {
+				fate = "C"
+			}
+			obs[pend.idx] = strings.Replace(obs[pend.idx], "fate=?", "fate="+fate, 1)
+			pend = nil
+		}
 		for i := 0; i+9 <= len(a[1]); i += 9 {
 			c := c04Decode(a[1][i:i+9], stream, maxBody)
 			c.tag = len(calls) + 1
@@ -365,8 +424,10 @@ func c04Host(a [][]byte) *Case {
 			w.mu.Lock()
 			n0 := len(w.arrivals)
 			w.mu.Unlock()
-			c04Do(hc, "c04.test", c, stream)
+			c04Do(hc, "c04.test", c, stream, &carry)
 			settle()
+			// the previous call's Response was reused by this one: its stream has been dropped by now
+			resolvePending()
 			w.mu.Lock()
 			var ids []string
 			last := -1
@@ -374,6 +435,7 @@ func c04Host(a [][]byte) *Case {
 				ids = append(ids, fmt.Sprint(ar.conn))
 				last = ar.conn
 			}
+			n1 := len(w.arrivals)
 			w.mu.Unlock()
 			fate := "C"
 			if last >= 0 && !w.conns[last].isClosed() {
@@ -383,11 +445,22 @@ func c04Host(a [][]byte) *Case {
 			if c.res == "ok" {
 				tg = c.gotTag
 			}
+			if c.carried {
+				fate = "?"
+				pend = &pendingFate{idx: len(obs), conn: last, n1: n1}
+			}
 			obs = append(obs, fmt.Sprintf("a=%s,res=%s,tag=%s,blen=%d,fate=%s", strings.Join(ids, "."), c.res, tg, len(c.gotBody), fate))
 			if k, d := c04Check(c); k != "" {
-				viol = append(viol, [2]string{k, d})
+				viol = append(viol, [2]string{k, d + " (the call before ended by " + c04Ends[prevEnd] + ")"})
 			}
+			prevEnd = c.end
 		}
+		if carry != nil {
+			fasthttp.ReleaseResponse(carry)
+			carry = nil
+			settle()
+		}
+		resolvePending()
 		// idle connections, in pool order = order of their last release; observable as the open connections
 		var open []string
 		w.mu.Lock()
@@ -768,12 +841,18 @@ func c04Conc(a [][]byte) *Case {
 						mu.Unlock()
 					}
 				}()
+				var carry *fasthttp.Response // each caller may keep using one Response for its next call
+				defer func() {
+					if carry != nil {
+						fasthttp.ReleaseResponse(carry)
+					}
+				}()
 				for _, t := range tags {
 					time.Sleep(time.Duration(r.Intn(2000)) * time.Millisecond)
 					c := c04Decode(r.Bytes(9, nil), stream, maxBody)
 					c.tag = t
 					host := []string{"h1.test", "h2.test"}[r.Intn(2)]
-					c04Do(cl, host, c, stream)
+					c04Do(cl, host, c, stream, &carry)
 					mu.Lock()
 					ncalls++
 					if c.res == "ok" {
@@ -807,7 +886,7 @@ func init() {
 	Register(&Prop{
 		ID: "C04",
 		Rule: "host: 2..10 sequential tagged calls on a HostClient (GET/POST/HEAD/PUT x body 0..5000 x server: full keep-alive | full close | cut inside head | cut after k body bytes | stall inside head | stall after k body bytes (tail arrives later) " +
-			"x request Connection: close x streamed body closed after 0|1|half|k|all bytes), StreamResponseBody with MaxResponseBodySize 0|64|200, LIFO/FIFO; " +
+			"x request Connection: close x streamed body read for 0|1|half|k|all bytes and then ended by CloseBodyStream | ReleaseResponse | Reset | reusing the same Response for the next call), StreamResponseBody with MaxResponseBodySize 0|64|200, LIFO/FIFO; " +
 			"every call goes through one of the three entry points Do / DoTimeout / DoDeadline (Do only where the scripted server answers completely); pipe: 2..12 pipelined GET/POST/HEAD requests written in issue order, answered in order, with and without slow answers, call timeouts and a PipelineClient.ReadTimeout shorter than the slowest answers (late responses), optionally a second wave of requests after the late answers, or slow uploads (request body streams held back past the call's deadline while the writer is inside the request write, further requests behind them); " +
 			"conc: 3..6 concurrent callers on a Client over two hosts with the same scripts; " +
 			"bodies are made of tag-carrying well-formed responses written in record-aligned segments; non-trivial = at least 2 calls (4 for conc); distinct = distinct input",
